@@ -42,7 +42,7 @@ var props = []Prop{
 	},
 	{
 		ID: "C01",
-		Harnesses: []H{{Pkg: "ecs", Fn: "HC01_Step"}, {Pkg: "ecs", Fn: "HC01_Step", Tags: "tiny", Tier: "thorough"}, {Pkg: "ecs", Fn: "HC08_Batch"}, {Pkg: "ecs", Fn: "HC01_TwoSmall"}, {Pkg: "ecs", Fn: "HDeep"}, {Pkg: "ecs", Fn: "HDeep", Tags: "tiny"}, {Pkg: "ecs", Fn: "HManyTables"}, {Pkg: "ecs", Fn: "HPagedSlice"},
+		Harnesses: []H{{Pkg: "ecs", Fn: "HC01_Step"}, {Pkg: "ecs", Fn: "HC01_Step", Tags: "tiny", Tier: "thorough"}, {Pkg: "ecs", Fn: "HC08_Batch"}, {Pkg: "ecs", Fn: "HC01_TwoSmall"}, {Pkg: "ecs", Fn: "HDeep"}, {Pkg: "ecs", Fn: "HDeep", Tags: "tiny"}, {Pkg: "ecs", Fn: "HManyTables"}, {Pkg: "ecs", Fn: "HPagedSlice"}, {Pkg: "ecs", Fn: "HC01_IDMap", W: 4}, {Pkg: "ecs", Fn: "HC01_IDMap", W: 4, Tags: "tiny"},
 			{Pkg: "ecs", Fn: "HC01_TwoSmall", Tags: "tiny", Tier: "thorough"}, {Pkg: "ecs", Fn: "HC01_Two", Tier: "thorough", Minutes: 60}},
 		Conform: stdConform,
 		Bounds:  "8 scripted prefixes (fresh, two tables, mixed sizes incl. zero-sized, two relation parents, dead target, retired table, recycled ids depth 3, two relation types) x 1 symbolic operation out of 11 kinds with every legal argument choice (entity, add/remove subsets of 6 component types, target) x 3 configurations (quick) / 6 (thorough: all 4 ID profiles, capacity increments 1..3, relation increments 1..2); quick also runs every pair of two operations from a reduced-argument set of 6 kinds (create with values, add / remove one component, child with target, RemoveEntity, Relations.Set) on every prefix (capacity increment 1; thorough: 1..2, both builds); HManyTables / HPagedSlice: 48 component-set tables and 36 relation tables in one node (beyond the 32-element pages of the table storage) with symbolic payloads, followed by one removal / retarget / batch removal of the relation / death of parents; paged storage lemmas for 1..65 elements with symbolic index; HDeep: every history of 3 (thorough 4) operations from an EMPTY world out of 10 reduced-argument kinds (create plain / with values / child with target, RemoveEntity, retarget, add/remove a component, Reset, Batch.RemoveEntities by mask / relation filter, batch SetRelation, batch add/remove of a component incl. Q variants) with a registered filter watching, 2 ID profiles x 2 capacity increments; thorough adds pairs (any operation with every legal argument, then a reduced-argument operation) on 3 prefixes with ids crossing the 16-id chunk, and the tiny build of the one-step harnesses; payload words fully symbolic; at most 10 entities",
@@ -79,7 +79,7 @@ var props = []Prop{
 	},
 	{
 		ID: "C06",
-		Harnesses: []H{{Pkg: "ecs", Fn: "HC06_TargetDeath"}, {Pkg: "ecs", Fn: "HC06_TargetDeath", Tags: "tiny", Tier: "thorough"}, {Pkg: "ecs", Fn: "HDeep"}},
+		Harnesses: []H{{Pkg: "ecs", Fn: "HC06_TargetDeath"}, {Pkg: "ecs", Fn: "HC06_TargetDeath", Tags: "tiny", Tier: "thorough"}, {Pkg: "ecs", Fn: "HDeep"}, {Pkg: "ecs", Fn: "HC06_BitSet", W: 2}},
 		Conform: stdConform,
 		Bounds:  "8 prefixes (two parents with children, dead target with non-empty table, retired table, two relation types, dead target with re-issued id, self-targeting entity, alive parent with active-but-empty child table, Reset over populated relation tables followed by new parents) x 1 (thorough: 2) symbolic operations out of RemoveEntity(any alive), Batch.RemoveEntities (All / mask / relation filter with any target), creation of a child (ids only or with values) for zero or any alive parent, Relations.Set, Reset, batch SetRelation, batch add/remove of other components through mask and relation filters; plus HDeep (all histories of 3, thorough 4, reduced-argument operations from an empty world incl. removals, retargeting, batch removal, Reset); after every step the structural invariant (free list without duplicates, target map = active tables, storage beyond len zero, retired tables empty and zeroed), at the end all observables vs the model incl. zero-initialised components and relation queries for every target; 3 configurations (thorough 6)",
 		Outside: "more than 2 operations after the prefix; more than 10 entities",
